@@ -320,6 +320,12 @@ func ruleXZReaderChecks(c *Ctx, r *Report, prefix string) {
 			if isRecordFieldFromUvarint(x, readUvarint) {
 				ok, why, trace := consequence(c, fn, g.iff, true)
 				n++
+				// a check that lives in a new helper counts once per call of the helper
+				if hp := g.iff.Block().Parent(); hp != fn && c.IsNew(hp) {
+					if k := len(c.callSites(hp)); k > 1 {
+						n += k - 1
+					}
+				}
 				key := fmt.Sprintf("V16-record-sign#%d:%s", n, FnName(fn))
 				if ok {
 					r.Pass(rule, key, c.InstrPos(g.iff), "index record field > 2^63-1 rejected", 1)
